@@ -250,6 +250,17 @@ class Ledger:
             head = q[0]
             if self.kind == "FilterStore" and op == "get" and not self.satisfiable(head) and len(self.res.items):
                 self.stats["filter_nomatch_waits"] += 1
+            if self.kind == "FilterStore" and op == "get":
+                # "only FilterStore lets a later getter overtake one whose filter matches nothing": a later
+                # getter whose filter matches a held item must not be left waiting across a clock advance
+                for later in q[1:]:
+                    self.stats["filter_later_getter_checks"] += 1
+                    if self.satisfiable(later):
+                        self.bad("filterstore-later-getter-stranded",
+                                 "the clock advanced while a FilterStore getter whose filter matches a held item was left waiting behind getters that match nothing",
+                                 {"now": env.now, "filter": later["fname"], "items": [repr(x) for x in self.res.items][:6],
+                                  "older_filters": [x["fname"] for x in q if x["seq"] < later["seq"]][:5]})
+                        break
             if self.satisfiable(head):
                 self.bad(f"oldest-{op}-satisfiable-at-clock-advance",
                          "the clock advanced while the oldest pending request could be satisfied in the current state",
@@ -376,7 +387,7 @@ def run_case(case, stats):
 
 KEYS = ("grants", "advance_checks", "cancels_waiting", "head_cancelled_with_follower", "deliveries_checked",
         "equal_distinct_deliveries", "fcfs_checks", "level_checks", "mixed_syncs", "granted_after_waiting",
-        "advance_with_waiters", "cancel_noop_granted", "pokes", "filter_nomatch_waits", "prio_deliveries_from_4plus")
+        "advance_with_waiters", "cancel_noop_granted", "pokes", "filter_nomatch_waits", "prio_deliveries_from_4plus", "filter_later_getter_checks")
 
 
 def one_case(ctx, case):
